@@ -17,7 +17,7 @@ from ..model import AnalysisError, FuncInfo, dotted, norm_stmt, unparse, walk_no
 from ..norm import NotAffine, Rational, _atom, affine, affine_eq, sym_exec, uf_atom, uf_inner
 from . import c05
 from .c04 import twin_path
-from .common import QUICK, calls_in, kwarg
+from .common import QUICK, calls_in, kwarg, parents_map
 
 EXPLANATION = (
     "Static analysis on /repo's current source. R1: at every site that builds a (value, samples) container from "
@@ -123,29 +123,67 @@ def rule_r4(prog, res) -> None:
     """delete-one jackknife covariance normalisation"""
     cv = prog.func("cov_from_samples")
     res.touch(cv)
-    fn = cv.node
-    cov = [x for x in walk_no_nested(fn) if isinstance(x, ast.Assign) and "np.cov" in unparse(x.value)]
-    if len(cov) != 1:
-        raise AnalysisError("C03.R4: covariance computation not recognised")
-    v = cov[0].value
-    call = next(x for x in ast.walk(v) if isinstance(x, ast.Call) and (dotted(x.func) or "").endswith("cov"))
-    ddof = kwarg(call, "ddof")
-    fac = None
-    if isinstance(v, ast.BinOp) and isinstance(v.op, ast.Mult):
-        fac = v.right if v.left is call else v.left
-    nsdef = [d for d in all_def_values(fn, "num_samples") if d is not None]
-    ok_ddof = isinstance(ddof, ast.Constant) and ddof.value == 0
-    ok_fac = fac is not None and affine_eq(affine(fac), {"num_samples": 1, "1": -1})
-    ok_n = len(nsdef) == 1 and "shape[ax_samples]" in unparse(nsdef[0])
-    if ok_ddof and ok_fac and ok_n:
-        res.ok("C03.R4", res.site(cv), "covariance = (N-1) * cov(ddof=0) = (N-1)/N * sum (x-mean)(x-mean)^T with N = number of samples")
+    # decided on the symbolic return values (private helpers expanded, locals substituted), once per orientation:
+    # every numpy.cov call that reaches a result is cov(X, rowvar=<orientation>, ddof=0) and is multiplied by
+    # exactly X.shape[<samples axis>] - 1
+    from .. import symx
+    from ..norm import poly as _polyn
+
+    if "rowvar" not in cv.param_names():
+        raise AnalysisError("C03.R4: cov_from_samples has no rowvar parameter any more")
+    ncov = 0
+    bad: dict = {}
+    for orient in (False, True):
+        paths = symx.Explorer(prog, inline=symx.inline_private_helpers(prog)).run(cv, {"rowvar": ast.Constant(orient)})
+        for p in paths:
+            if p.outcome != "return" or p.value is None:
+                continue
+            pm = parents_map(p.value)
+            for call in [x for x in ast.walk(p.value) if isinstance(x, ast.Call) and (dotted(x.func) or "").split(".")[-1] == "cov" and x.args]:
+                ncov += 1
+                ddof = kwarg(call, "ddof")
+                if not (isinstance(ddof, ast.Constant) and ddof.value == 0):
+                    bad.setdefault("ddof", call)
+                rv = kwarg(call, "rowvar")
+                rv_eff = True if rv is None else (rv.value if isinstance(rv, ast.Constant) and isinstance(rv.value, bool) else None)
+                if rv_eff is not orient:
+                    bad.setdefault("rowvar", call)
+                    continue
+                X = call.args[0]
+                n_txt = unparse(ast.Subscript(value=ast.Attribute(value=X, attr="shape", ctx=ast.Load()), slice=ast.Constant(1 if orient else 0), ctx=ast.Load()))
+                want = Rational(_atom(n_txt)) - Rational({(): 1})
+                fac = Rational({(): 1})
+                cur, par = call, pm.get(id(call))
+                understood = True
+                while par is not None:
+                    if isinstance(par, ast.BinOp) and isinstance(par.op, (ast.Mult, ast.Div)):
+                        other = par.right if par.left is cur else par.left
+                        try:
+                            o = _polyn(other)
+                        except Exception:  # noqa: BLE001
+                            understood = False
+                            break
+                        if isinstance(par.op, ast.Mult):
+                            fac = fac * o
+                        elif par.left is cur:
+                            fac = fac / o
+                        else:
+                            understood = False
+                            break
+                    cur, par = par, pm.get(id(par))
+                if not understood or not fac.equals(want):
+                    bad.setdefault("factor", call)
+    if ncov < 2:
+        raise AnalysisError("C03.R4: covariance computation not recognised (no numpy.cov call reaches the result of cov_from_samples)")
+    ok_ddof, ok_fac, ok_rv = "ddof" not in bad, "factor" not in bad, "rowvar" not in bad
+    if ok_ddof and ok_fac:
+        res.ok("C03.R4", res.site(cv), f"covariance = (N-1) * cov(ddof=0) = (N-1)/N * sum (x-mean)(x-mean)^T with N = number of samples ({ncov} cov terms on the return paths, both orientations)")
     else:
-        res.violation("C03.R4", cv, cov[0], f"jackknife covariance normalisation is not (N-1) * cov(ddof=0) (ddof=0: {ok_ddof}, factor N-1: {ok_fac}, N = samples axis: {ok_n})", key_extra="cov-normalisation")
-    rowvar = kwarg(call, "rowvar")
-    if rowvar is not None and unparse(rowvar) == "rowvar":
+        res.violation("C03.R4", cv, cv.node, f"jackknife covariance normalisation is not (N-1) * cov(ddof=0) with N = length of the samples axis (ddof=0: {ok_ddof}, factor N-1: {ok_fac})", key_extra="cov-normalisation")
+    if ok_rv:
         res.ok("C03.R4", res.site(cv, "rowvar"), "sample axis orientation forwarded to numpy.cov")
     else:
-        res.violation("C03.R4", cv, call, "numpy.cov is called with a fixed orientation: samples and observables are exchanged", key_extra="cov-rowvar")
+        res.violation("C03.R4", cv, cv.node, "numpy.cov is called with a fixed orientation: samples and observables are exchanged", key_extra="cov-rowvar")
     sd = prog.find_class("SampledData")
     err, covp = sd.methods.get("error"), sd.methods.get("covariance")
     if err is None or covp is None:
